@@ -8,7 +8,7 @@ W_C07 = {"warm": 10, "get": 40, "labels": 6, "setcell": 22, "setslice": 8, "setc
          "d_mul": 2, "d_add": 2, "labelcol": 3, "show": 2}
 W_C08 = {"polluter": 4, "sel": 50, "compose": 14, "setcell": 6, "setslice": 2, "setcol": 5, "d_rows": 6, "warm": 3, "get": 3, "reindex": 1}
 W_C14 = {"d_select": 8, "d_rows": 14, "d_cols": 12, "d_add": 7, "d_mul": 5, "d_concat": 5, "d_copy": 6, "d_t": 4, "expr": 12,
-         "setcol": 10, "setcell": 8, "setslice": 3, "delcol": 4, "sel": 3, "reindex": 1, "get": 2, "ctor": 6, "setcol_b": 3, "show": 3, "newcol_list": 3}
+         "setcol": 10, "setcell": 8, "setslice": 3, "delcol": 4, "sel": 3, "reindex": 1, "get": 2, "ctor": 6, "setcol_b": 3, "show": 3, "newcol_list": 3, "vec_cols": 2}
 
 
 def _case(ctx, run, prop, weights, faults_p, sizes):
